@@ -188,6 +188,28 @@ def cubicCurve (boundary : ℕ) (tol cpRtol cpAtol : K) (x : Mat K) (t : List K)
   let cp ← solveC N rhs
   pure (basis, cp)
 
+/-- Running sums `t = [start]; for d in ds: t.append(t[-1] + d)` (chord-length parameters, centre
+distances of loft sections). -/
+def cumsum (start : K) (ds : List K) : List K :=
+  ds.foldl (fun acc d => acc ++ [acc.getLastD start + d]) [start]
+
+/-- The parameter logic at the top of `cubic_curve`: a periodic input that is not closed gets its
+first point appended, a given `t` is extended by the closing chord, and a missing `t` is the
+chord-length parametrisation.  The Euclidean norms are floating-point square roots and are supplied by
+the caller: `chords[i] = ‖x[i+1] − x[i]‖` for the INPUT points, `closing = ‖x[0] − x[-1]‖`; the
+cumulative sums and the closing parameter are computed here. -/
+def cubicParams (boundary : ℕ) (cpRtol cpAtol : K) (x : Mat K) (t : Option (List K)) (chords : List K)
+    (closing : K) : List K :=
+  let appended : Bool := boundary = bPERIODIC ∧ !(allclose (x.getD 0 #[]) (x.getD (x.size - 1) #[]) cpRtol cpAtol)
+  match t with
+  | some t => if appended then t ++ [t.getLastD 0 + closing] else t
+  | none => cumsum 0 (if appended then chords ++ [closing] else chords)
+
+/-- `curve_factory.cubic_curve(x, boundary, t, tangents)` including its parameter logic. -/
+def cubicCurveFull (boundary : ℕ) (tol cpRtol cpAtol : K) (x : Mat K) (t : Option (List K))
+    (chords : List K) (closing : K) (tangents : Option (Mat K)) : PyM (Basis K × Mat K) :=
+  cubicCurve boundary tol cpRtol cpAtol x (cubicParams boundary cpRtol cpAtol x t chords closing) tangents
+
 /-- `list(range(n+1)) * (p-1) + [0, n]` — the knot values of `bezier` before `knot.sort()`. -/
 def bezierKnotList (p n : ℕ) : List K :=
   ((List.range (p - 1)).flatMap (fun _ => (List.range (n + 1)).map (fun (i : ℕ) => (i : K)))) ++ [0, (n : K)]
@@ -322,6 +344,11 @@ def interpolateGrid (bases : List (Basis K)) (tol : K) (u : Option (List (List K
 def gridInputLsq (us : List (List K)) (x : Tensor K) : PyM (Tensor K) :=
   if x.shape.length = 2 then reshape x (us.map List.length ++ [x.shape.getLastD 1]) else .ok x
 
+/-- `Surface(b_u, b_v, cp)` / `Volume(b_u, b_v, b_w, cp)` — the object the grid factories return
+(control net already in the `n_1 × … × n_pd × dim` layout of the constructor). -/
+def gridOf (bases : List (Basis K)) (cp : Tensor K) : Obj K :=
+  { bases := bases.toArray, cps := cp, rational := false }
+
 /-- The two loops of `least_square_fit` (surface / volume). -/
 def leastSquareGridCore (bases : List (Basis K)) (tol : K) (us : List (List K)) (x : Tensor K) :
     PyM (Tensor K) := do
@@ -385,6 +412,12 @@ def loft (bases : List (Basis K)) (tol : K) (secs : List (Tensor K)) (dist : Lis
   let cp ← chain invs x (k + 1)
   let cp ← throughConstructor cp (k + 1)
   pure (bL, cp)
+
+/-- `loft` including the cumulation of the centre distances: `dist = [0]; dist.append(dist[-1] + ‖c_{i+1} − c_i‖)`
+(the norms `cdists` of consecutive section centres are supplied by the caller). -/
+def loftFull (bases : List (Basis K)) (tol : K) (secs : List (Tensor K)) (cdists : List K) :
+    PyM (Basis K × Tensor K) :=
+  loft bases tol secs (cumsum 0 cdists)
 
 end Interp
 end Splipy
